@@ -928,6 +928,19 @@ theorem run_other_statements_irrelevant (i : Input) (stmts' : List Stmt) (s s' :
   unfold run
   simp only [happ, happ', hl, hv]
 
+/-- **run_history_irrelevant**: the prediction for a verification does not depend on what the
+same verifier instance verified before (nor on the annotations): the model is stateless, and
+the correspondence run holds the implementation to it - a verifier that remembers trust
+certificates, results or store contents across calls disagrees with this prediction -/
+theorem run_history_irrelevant (i : Input) (h : List String) (b f k : String) :
+    run { i with history := h, backend := b, format := f, kind := k } = run i := rfl
+
+/-- hence any two verifications that differ only in their history are predicted alike -/
+theorem run_eq_of_same_call (i j : Input) (hs : i.scheme = j.scheme) (hc : i.chain = j.chain)
+    (hst : i.statements = j.statements) (hr : i.repo = j.repo) (hw : i.world = j.world) :
+    run i = run j := by
+  unfold run; rw [hs, hc, hst, hr, hw]
+
 /-! ### non-vacuity -/
 
 section examples
@@ -943,7 +956,7 @@ def exInput (scheme : Scheme) (l : List String) : Input :=
   { scheme := scheme, chain := [0, 1, 2], repo := "reg.example/a".toList, world := exWorld,
     statements := [ ⟨["reg.example/a".toList], l.map String.toList, .strict⟩,
                     ⟨["*".toList], ["ca:alpha".toList, "signingAuthority:alpha".toList], .strict⟩ ],
-    backend := "mem", format := "jws" }
+    backend := "mem", format := "jws", kind := "oci", history := [] }
 
 /-- trusted: the root is in the listed ca store -/
 example : run (exInput .x509 ["ca:gamma", "tsa:alpha", "ca:alpha", "ca:gamma"]) =
